@@ -71,7 +71,9 @@ fn deserialize_header<R: Read>(buf: &mut R) -> Result<(u8, u32, u32)> {
     let len = u16_from_u8s(&hdr[2..4]);
     let sid = u32_from_u8s(&hdr[4..]);
 
-    Ok((typ as u8, u32::from(len), sid))
+    let typ = u8::try_from(typ)
+        .map_err(|_| super::Error(format!("unknown message type: {}", typ)))?;
+    Ok((typ, u32::from(len), sid))
 }
 
 #[derive(Clone, Debug, PartialEq)]
